@@ -129,6 +129,9 @@ func (en *Engine) step(st *State) []*State {
 			}
 		}
 	}
+	if st.sidePending >= en.sideBatch {
+		en.flushSide(st)
+	}
 	ins := f.block.Instrs[f.pc]
 	f.pc++
 	st.steps++
@@ -833,7 +836,10 @@ func (en *Engine) cutAnchors(fn *ssa.Function, fc *FuncContract) *cutAnchorSet {
 	}
 	a := &cutAnchorSet{before: map[ssa.Instruction][]anchoredCut{}, after: map[ssa.Instruction][]anchoredCut{}}
 	for i, cs := range fc.NamedCuts {
-		parts := strings.Fields(cs.Anchor) // before|after call|store NAME[#K]
+		parts := strings.Fields(cs.Anchor) // before|after call|store NAME[#K]   or   at loop#N
+		if parts[0] == "at" {
+			continue // handled at loop heads
+		}
 		name, k := parts[2], 1
 		if j := strings.Index(name, "#"); j >= 0 {
 			fmt.Sscanf(name[j+1:], "%d", &k)
